@@ -2078,7 +2078,7 @@ def impl_mk(t):
 
 MK_OPS = {"mksingle", "mkcompound", "mkparent", "mkseq", "mkcds", "mktx", "mkvarcoll", "scanwin",
           "mkvar", "mkfeat", "mkgene", "mkfcoll", "mkannot", "mkcodon", "fromint", "fromsym"}
-MODEL_OPS = MK_OPS | {"sappend", "pcons"}
+MODEL_OPS = MK_OPS | {"sappend", "pcons", "hier"}
 
 
 def cold():
@@ -2102,6 +2102,8 @@ def impl(line):
         return impl_pcons(t)
     if t[0] == "gbparse":
         return impl_gbparse(t)
+    if t[0] in ("hier", "hierx", "hiers"):
+        return impl_hier(t)
     return impl_mk(t)
 
 
@@ -2243,6 +2245,186 @@ def impl_pcons(t):
             return "ok illformed result-on-another-parent"
         return "ok wf"
     return guarded(go)
+
+
+# ----------------------------------------------------------------------------------------------
+# parent-hierarchy grid (fourth strengthening round): every interval / collection constructor x every shape of the
+# hierarchy handed in as `parent_or_seq_chunk_parent`
+#   hier  <Class> <kind>     judged by the spec AND compared with the modelled parent validation (exact class)
+#   hierx <Class> <kind>     judged by the spec only (constructors that do more than validate their parent)
+# The expected verdict is `Spec.Validate.hierRefusal` of the plain descriptor `Spec.Validate.hierKinds[kind]`; this side
+# reports what the library did and, for an accepted object, whether it is well formed and survives being exported.
+
+HIER_G = "ATGAAATTTGGGCCCTAAACGTACGTTAGCATGCCCGGGTTTAAATGA"
+HIER_CS, HIER_CE = 6, 36
+HIER_KIND_NAMES = [
+    "none", "chromosome+sequence", "chromosome", "untyped+sequence", "untyped", "plasmid+sequence",
+    "chunk-on-chromosome", "chunk-without-parent", "chunk-on-plasmid", "chunk-on-untyped", "chunk-on-chunk",
+    "chunk-without-sequence", "chunk-not-located", "chunk-on-contig-on-chromosome", "located-untyped",
+    "chunk-on-minus-strand", "chunk-on-chromosome+sequence", "typed-chunk-without-sequence-or-parent",
+    "chromosome-inside-chunk", "chunk-on-chromosome(location-without-parent-pointer)",
+]
+HIER_KINDS = len(HIER_KIND_NAMES)
+
+
+def hier_kind(k):
+    """fresh Parent of kind k (descriptors: Spec.Validate.hierKinds / Model.Validate.hierKey, same order)"""
+    G, cs, ce = HIER_G, HIER_CS, HIER_CE
+    CH, CK = SequenceType.CHROMOSOME, SequenceType.SEQUENCE_CHUNK
+    P = Strand.PLUS
+
+    def seq(d, ty=None, parent=None, sid=None):
+        return Sequence(d, Alphabet.NT_EXTENDED_GAPPED, id=sid, type=ty, parent=parent)
+
+    def on(top, strand=P):
+        # the documented form: the place of the chunk is a location that points at the sequence it was cut from
+        return Parent(location=SingleInterval(cs, ce, strand, parent=top))
+
+    def chunk(above, data=G[cs:ce]):
+        return Parent(id="ck", sequence=seq(data, CK, above, "ck"))
+
+    def depth3():
+        chrom = Parent(id="chr1", sequence_type=CH, location=SingleInterval(100, 200, P))
+        return chunk(Parent(location=SingleInterval(cs, ce, P, parent=Parent(id="ctg", sequence_type="contig", parent=chrom)),
+                            parent=chrom))
+    return [
+        lambda: None,
+        lambda: Parent(id="chr1", sequence_type=CH, sequence=seq(G, CH, None, "chr1")),
+        lambda: Parent(id="chr1", sequence_type=CH),
+        lambda: Parent(id="chr1", sequence=seq(G, None, None, "chr1")),
+        lambda: Parent(id="chr1"),
+        lambda: Parent(id="pl", sequence_type="plasmid", sequence=seq(G, "plasmid", None, "pl")),
+        lambda: chunk(on(Parent(id="chr1", sequence_type=CH))),
+        lambda: chunk(None),
+        lambda: chunk(on(Parent(id="chr1", sequence_type="plasmid"))),
+        lambda: chunk(on(Parent(id="chr1"))),
+        lambda: chunk(on(Parent(id="chr1", sequence_type=CK))),
+        lambda: Parent(id="ck", sequence_type=CK, parent=on(Parent(id="chr1", sequence_type=CH))),
+        lambda: chunk(Parent(id="chr1", sequence_type=CH)),
+        depth3,
+        lambda: Parent(id="chr1", location=SingleInterval(cs, ce, P)),
+        lambda: chunk(on(Parent(id="chr1", sequence_type=CH), Strand.MINUS)),
+        lambda: chunk(on(Parent(id="chr1", sequence_type=CH, sequence=seq(G, CH, None, "chr1")))),
+        lambda: Parent(id="ck", sequence_type=CK),
+        lambda: Parent(id="chr1", sequence_type=CH, sequence=seq(G, CH, None, "chr1"),
+                       parent=Parent(id="ck", sequence=seq(G + G, CK, None, "ck"), location=SingleInterval(0, len(G), P))),
+        lambda: chunk(Parent(id="chr1", sequence_type=CH, location=SingleInterval(cs, ce, P))),
+    ][k]()
+
+
+def _h_feat(p):
+    return FeatureInterval([8, 20], [14, 30], Strand.PLUS, parent_or_seq_chunk_parent=p)
+
+
+def _h_tx(p):
+    return TranscriptInterval([8, 20], [14, 30], Strand.MINUS, [9, 20], [14, 27], [CDSFrame.ZERO, CDSFrame.ONE],
+                              parent_or_seq_chunk_parent=p)
+
+
+def _h_nctx(p):
+    return TranscriptInterval([8, 20], [14, 30], Strand.PLUS, parent_or_seq_chunk_parent=p)
+
+
+def _h_cds(p):
+    return CDSInterval([9, 20], [14, 27], Strand.PLUS, [CDSFrame.ZERO, CDSFrame.ONE], parent_or_seq_chunk_parent=p)
+
+
+def _h_var(p):
+    return VariantInterval(10, 12, "A", "snv", parent_or_seq_chunk_parent=p)
+
+
+def _h_gene(p):
+    return GeneInterval([_h_tx(p), _h_nctx(p)], parent_or_seq_chunk_parent=p)
+
+
+def _h_gene1(p):
+    return GeneInterval([_h_tx(p)], parent_or_seq_chunk_parent=p)
+
+
+def _h_fc(p):
+    return FeatureIntervalCollection([_h_feat(p)], parent_or_seq_chunk_parent=p)
+
+
+def _h_vc(p):
+    return VariantIntervalCollection([_h_var(p)], parent_or_seq_chunk_parent=p)
+
+
+# class token -> (builder, (start, end) the object must report)
+HIER_CLASSES = {
+    "FeatureInterval": (_h_feat, (8, 30)),
+    "TranscriptInterval": (_h_tx, (8, 30)),
+    "TranscriptInterval:noncoding": (_h_nctx, (8, 30)),
+    "CDSInterval": (_h_cds, (9, 27)),
+    "VariantInterval": (_h_var, (10, 12)),
+    "GeneInterval": (_h_gene, (8, 30)),
+    "GeneInterval:one-child": (_h_gene1, (8, 30)),
+    "FeatureIntervalCollection": (_h_fc, (8, 30)),
+    "VariantIntervalCollection": (_h_vc, (10, 12)),
+    "AnnotationCollection": (lambda p: AnnotationCollection(feature_collections=[_h_fc(p)], genes=[_h_gene(p)],
+                                                            parent_or_seq_chunk_parent=p), None),
+    "AnnotationCollection:one-gene": (lambda p: AnnotationCollection(genes=[_h_gene1(p)], start=8, end=30,
+                                                                     parent_or_seq_chunk_parent=p), (8, 30)),
+    "AnnotationCollection:bounds-only": (lambda p: AnnotationCollection(start=8, end=30, parent_or_seq_chunk_parent=p), (8, 30)),
+    "AnnotationCollection:empty": (lambda p: AnnotationCollection(parent_or_seq_chunk_parent=p), None),
+}
+# spec-judged only: the constructor also incorporates the variants into the genes (C08's subject)
+HIERX_CLASSES = {
+    "AnnotationCollection:variants": (lambda p: AnnotationCollection(genes=[_h_gene(p)], variant_collections=[_h_vc(p)],
+                                                                     parent_or_seq_chunk_parent=p), None),
+}
+
+
+def _survives(o):
+    """exporting an accepted object: a documented refusal is an answer, anything else is reported"""
+    probes = [("to_dict", lambda: o.to_dict())]
+    if isinstance(o, AnnotationCollection):
+        import pickle
+        probes += [("to_dict(export_parent)", lambda: o.to_dict(export_parent=True)),
+                   ("pickle", lambda: pickle.loads(pickle.dumps(o)))]
+    else:
+        probes += [("chromosome_location", lambda: o.chromosome_location),
+                   ("chunk_relative_location", lambda: o.chunk_relative_location),
+                   ("from_dict(to_dict)", lambda: type(o).from_dict(o.to_dict(), o._parent_or_seq_chunk_parent))]
+    for name, f in probes:
+        a = guarded(lambda: judge(f()))
+        if a.startswith("err!"):
+            return f"{name}:{a.split()[1]}"
+        if a.startswith("ok illformed"):
+            return f"{name}:{a.split()[2]}"
+    return None
+
+
+def impl_hier(t):
+    """hier / hierx: the constructor's verdict (refusal class, or well-formedness and coordinates of what was built);
+    hiers: what exporting the built object does (the constructor's refusal is repeated, the spec answers n/a)"""
+    table = HIERX_CLASSES if t[0] == "hierx" else dict(HIER_CLASSES, **HIERX_CLASSES)
+    build, span = table[t[1]]
+    k = int(t[2])
+
+    def go():
+        o = build(hier_kind(k))
+        if t[0] == "hiers":
+            r = _survives(o)
+            return "ok illformed " + r if r else "ok wf"
+        r = W.wf_value(o)
+        if r:
+            return "ok illformed " + r
+        if span is not None and (o.start, o.end) != span:
+            return "ok illformed reports-other-coordinates"
+        return "ok wf"
+    return guarded(go)
+
+
+def hier_lines():
+    for cn in HIER_CLASSES:
+        for k in range(HIER_KINDS):
+            yield f"hier {cn} {k}"
+    for cn in HIERX_CLASSES:
+        for k in range(HIER_KINDS):
+            yield f"hierx {cn} {k}"
+    for cn in list(HIER_CLASSES) + list(HIERX_CLASSES):
+        for k in range(HIER_KINDS):
+            yield f"hiers {cn} {k}"
 
 
 # ----------------------------------------------------------------------------------------------
